@@ -323,8 +323,13 @@ def binop(P, op, a, b):
         if all(not is_sym(x) and not isinstance(x, SObj) for x in a.items + bitems) and not a.parts:
             return SymSet([x for x in a.items if x not in bitems])
         raise _unsup("set difference of symbolic sets")
+    if isinstance(a, SObj) and isinstance(a.cls, str):
+        hk = {ast.Div: "__truediv__", ast.Add: "__add__", ast.Sub: "__sub__"}.get(type(op))
+        h = P.attr_hooks.get((a.cls, hk)) if hk else None
+        if h:
+            return h(P, a, b)
     if isinstance(a, SObj):
-        nm = {ast.Add: "__add__", ast.Sub: "__sub__", ast.BitOr: "__or__", ast.BitAnd: "__and__", ast.Truediv if hasattr(ast, "Truediv") else ast.Div: "__truediv__"}.get(type(op))
+        nm = {ast.Add: "__add__", ast.Sub: "__sub__", ast.BitOr: "__or__", ast.BitAnd: "__and__", ast.Div: "__truediv__"}.get(type(op))
         if nm:
             m = P.find_method(P.resolve_cls(a), nm)
             if m is not None:
